@@ -481,8 +481,8 @@ section defaults
 open P
 
 theorem dedup_nodup : ∀ l : List (String × Int), (l.map (·.1)).Nodup → Lex.defaultPrios.dedup l = l
-  | [], _ => rfl
-  | [x], _ => rfl
+  | [], _ => by unfold Lex.defaultPrios.dedup; rfl
+  | [x], _ => by unfold Lex.defaultPrios.dedup; rfl
   | x :: y :: r, h => by
       have hne : x.1 ≠ y.1 := by
         intro he
